@@ -185,6 +185,39 @@ def drain_rules(ctx, prog, fname="reproc_drain"):
                        len(info[1]) == 1 and next(iter(info[1])) in ready, {"events": evs, "stream": show(info[1])}, nontrivial=True)
             elif last and last[0] == "poll" and last[1] == "deadline":
                 ctx.ob("C16.G3d", "%s: read after deadline event" % fname, "nothing is read once the deadline event was reported", False, None)
+    # ---- G7: the chunk buffer is private to this call
+    # A sink is a user callback: it may itself drain another process, and drains of different handles may run on different
+    # threads (the library is built REPROC_MULTITHREADED).  The bytes a sink receives are those reproc_read stored in the
+    # buffer only while nothing else writes that storage, i.e. when it belongs to this activation of the drain.
+    auto_cells = set()
+    shared_cells = {}
+    for G, vd in ((G, vd) for G in prog.funcs_all if G.body for vd in G.walk()):
+        if vd.get("k") == "VarDecl":
+            g = ("v", G.gdid(vd["did"]))
+            if vd.get("static") or vd.get("extern") or vd.get("tls"):
+                shared_cells[g] = vd["name"]
+            else:
+                auto_cells.add(g)
+
+    def root_cell(c):
+        while isinstance(c, tuple) and c and c[0] in ("i", "f"):
+            c = c[1]
+        return c
+    bufs = {}
+    for e in res.events:
+        if e[0] == "read":
+            for v in e[3][2]:
+                bufs.setdefault(v, e[2])
+    for v, n in sorted(bufs.items(), key=lambda kv: str(kv[0])):
+        root = root_cell(v[1]) if isinstance(v, tuple) and v[0] == "addr" else None
+        kind = ("automatic" if root in auto_cells else "static storage (%s)" % shared_cells[root] if root in shared_cells
+                else "heap block of this call" if isinstance(root, tuple) and root and root[0] in ("h", "heap") else "not resolved")
+        ctx.ob("C16.G7", "%s: storage of the chunk buffer at %s" % (fname, expr_str(n)[:60]),
+               "the buffer reproc_read fills and the sink is handed belongs to this activation of the drain (automatic storage, or a "
+               "block allocated by this call): a sink may drain another process and drains of different handles may run "
+               "concurrently, and storage with static duration would be overwritten under the sink's feet",
+               kind == "automatic" or kind.startswith("heap"), {"buffer": show(fs(v))[:60], "storage": kind}, nontrivial=True)
+    ctx.floor("C16.G7", 1)
     # after-stop
     bad = [e for e in res.events if e[0] == "after-stop"]
     ctx.ob("C16.G3s", "%s: after a non-zero sink result" % fname, "a non-zero sink result stops the drain at once (no further poll, "
